@@ -30,7 +30,7 @@ def sigAdequate (s : Sig) : Bool :=
       (s.recv != .value || (s.ownerK == .coll && s.lts == [.param])) &&
       (s.ownerK != .coll || s.recv == .value) &&
       (s.ownerK == .bump || s.ownerK == .scope || s.ownerK == .trScope || s.ownerK == .trTypedScope ||
-       s.ownerK == .trMutTypedScope || s.ownerK == .coll)
+       s.ownerK == .trMutTypedScope || s.ownerK == .coll || s.ownerK == .trAllocator)
   | .mkGuard => s.recv == .refMut && s.ret == .guard && s.lts == [.recv] &&
       (s.ownerK == .bump || s.ownerK == .scope || s.ownerK == .trAllocator)
   | .guardScope => s.ownerK == .guard && s.recv == .refMut && s.ret == .scopeMut && s.lts == [.recv, .recv]
@@ -101,11 +101,17 @@ def threadsAdequate (t : Table) : Bool :=
       (!sendOK t fl (probe k .own) ||
         ((k == .bump || k == .pool) && fl.allocSend) || (k == .poolGuard && fl.allocSend && fl.allocSync))
 
+/-- a conversion between lifetime-carrying types (`From`, accessors of `Stats`/`Chunk`/…, iterator items, `AsRef`/`Borrow`/
+    `Deref`, `from_parts`) must not lose the bound: every lifetime of its output is one the input names.  (An elided `'_`
+    on both sides of an impl header is two independent lifetimes: the output would be bounded by nothing.) -/
+def convsAdequate (t : Table) : Bool := t.valueConvs.all ValueConv.tied
+
 def sigOK (t : Table) : Bool :=
   t.sigs.all sigAdequate &&
   t.scopeImpls.all implAdequate &&
   derefAdequate t .claim && derefAdequate t .poolGuard &&
   settingsOK t &&
-  threadsAdequate t
+  threadsAdequate t &&
+  convsAdequate t
 
 end Life
